@@ -78,6 +78,7 @@ type ledger struct {
 
 	stats struct {
 		leaders, commits, elections, configChanges, snapshots, compactions, restarts, linChecks, infoReports int
+		snapInstalledKeep, snapInstalledReset, snapIgnored                                                       int
 	}
 	oracles map[string]bool // enabled optional oracles (durable, ...)
 }
@@ -410,6 +411,15 @@ func (l *ledger) afterDeliver(dst *simNode, c *simConn, rp *rpc, dup bool) {
 		// C09/C03: after a node acknowledged a snapshot, whatever it retains at or below the
 		// snapshot's index is what was committed there (else it will apply something else)
 		if rp.resp.getResult() == success && rp.readErr == nil {
+			// which way the installation went (coverage only)
+			switch {
+			case r.snaps.index != req.lastIndex:
+				l.stats.snapIgnored++
+			case r.log.PrevIndex() < req.lastIndex && req.lastIndex <= r.lastLogIndex:
+				l.stats.snapInstalledKeep++
+			default:
+				l.stats.snapInstalledReset++
+			}
 			for i := r.log.PrevIndex() + 1; i <= r.lastLogIndex && i <= req.lastIndex; i++ {
 				c, ok := l.committed[i]
 				if !ok {
